@@ -17,7 +17,7 @@ from ..rules import norm
 META = {
     "level": "other",
     "technique": "statement-order pairing rules on typed HIR (position capture ↔ chunk write, offset field ↔ sub-chunk), sibling mapping comparison writer vs parser, attribute-dual rule over binrw directives (syntax level)",
-    "claim": "Decides that the serializer's back-patched offset tables are fed from the position of the chunk each entry names, that chunk sizes are derived from positions, that writer and parser agree on which MCNK header offset locates which sub-chunk, and that no binrw type with both derives has a read-only or write-only layout directive. Does not compare content or growth under repeated rebuild. Also: the tracked MH2O cursor never goes stale (typestate); builder version table ⊆ parser gates per chunk; until-end-of-stream types are parsed only from bounded readers; MCNK size-field conventions and validity predicates agree between writer and reader; conditional header fields are cleared first. Wave 5: whole-file writers open truncating; the four MH2O vertex-format arms walk the same rectangle. Wave 6: VertexDataArray::byte_size equals the payload vertex type's SIZE per variant; MCNK sub-chunk reads are decided by the header (and version/size parameters) alone. Wave 7: chunk-writer helpers write on every success path; the parsed -> builder -> built conversions carry each field under its own name.",
+    "claim": "Decides that the serializer's back-patched offset tables are fed from the position of the chunk each entry names, that chunk sizes are derived from positions, that writer and parser agree on which MCNK header offset locates which sub-chunk, and that no binrw type with both derives has a read-only or write-only layout directive. Does not compare content or growth under repeated rebuild. Also: the tracked MH2O cursor never goes stale (typestate); builder version table ⊆ parser gates per chunk; until-end-of-stream types are parsed only from bounded readers; MCNK size-field conventions and validity predicates agree between writer and reader; conditional header fields are cleared first. Wave 5: whole-file writers open truncating; the four MH2O vertex-format arms walk the same rectangle. Wave 6: VertexDataArray::byte_size equals the payload vertex type's SIZE per variant; MCNK sub-chunk reads are decided by the header (and version/size parameters) alone. Wave 7: chunk-writer helpers write on every success path; the parsed -> builder -> built conversions carry each field under its own name. Wave 8: the builder accepts a full tile (limit evaluated at the MCIN slot count); per-item optionals start fresh per item; AdtBuilder setters keep the other settings.",
     "note": "Trusted: binrw derives are symmetric absent one-sided directives; Seek::stream_position. The directive rule reads attribute text from the source files (derive helper attributes are not kept in HIR).",
     "assumptions": ["MHDR/MCIN are the only offset tables of a root ADT"],
     "explanation": "builder/serializer.rs: serialize_to_writer (≈20 recorded positions), calculate_mhdr_offsets, write_chunk, write_mcnk_chunk; chunks/mcnk/chunk.rs read_subchunk call sites; every #[br]/#[bw]/#[brw] attribute under wow-adt/src.",
